@@ -51,10 +51,11 @@ public:
 	}
 	SmartObject& operator=(const SmartObject& n)
 	{
+		SmartObject_* p = n._p;
+		if (p)
+			++p->rc; // take the new reference before releasing the old one (a = a)
 		unref();
-		_p = n._p;
-		if (_p)
-			++_p->rc;
+		_p = p;
 		return *this;
 	}
 	~SmartObject()
